@@ -291,7 +291,15 @@ func (x *gen) vector(d int) ex {
 	return x.selector()
 }
 
-func (x *gen) grouping(label string) (string, bool) {
+func (x *gen) excluded(which string) {
+	x.g.Excluded++
+	if x.g.ExcludedBy == nil {
+		x.g.ExcludedBy = map[string]int{}
+	}
+	x.g.ExcludedBy[which]++
+}
+
+func (x *gen) grouping(label string, drop string) (string, bool) {
 	g := x.g
 	opts := []string{"none"}
 	if g.By {
@@ -304,21 +312,37 @@ func (x *gen) grouping(label string) (string, bool) {
 	if m == "none" {
 		return "", false
 	}
-	return m + "(" + strings.Join(x.labelList(label+".l", nil), ", ") + ")", true
+	ls := x.labelList(label+".l", nil)
+	if drop != "" && m == "without" && contains(ls, drop) {
+		var kept []string
+		for _, l := range ls {
+			if l != drop {
+				kept = append(kept, l)
+			}
+		}
+		ls = kept
+		x.excluded("count-values-without")
+	}
+	return m + "(" + strings.Join(ls, ", ") + ")", true
 }
 
 func (x *gen) aggOf(inner ex) ex {
 	op := x.pick(aggOps, "aggop")
 	param := ""
+	drop := ""
 	switch op {
 	case "count_values":
-		param = quote(x.pick(append([]string{"cv"}, x.g.U.Labels...), "cvlabel")) + ", "
+		l := x.pick(append([]string{"cv"}, x.g.U.Labels...), "cvlabel")
+		param = quote(l) + ", "
+		if x.g.ExcludeCountValuesWithout {
+			drop = l
+		}
 	case "quantile":
 		param = x.pick([]string{"0.5", "0", "1"}, "q") + ", "
 	case "topk", "bottomk":
 		param = x.pick([]string{"1", "2", "5"}, "k") + ", "
 	}
-	grp, ok := x.grouping("agggrp")
+	grp, ok := x.grouping("agggrp", drop)
 	if !ok {
 		return ex{op + "(" + param + inner.s + ")", true}
 	}
@@ -332,6 +356,16 @@ func (x *gen) agg(d int) ex { return x.aggOf(x.vector(d - 1)) }
 
 func (x *gen) fn(inner ex) ex {
 	f := x.pick(instFuncs, "fn")
+	if x.g.ExcludeFnOverRemoved {
+		if n, err := Parse(inner.s); err == nil {
+			for _, l := range PositivelyNamed(n) {
+				if !MayCarry(n, l) {
+					x.excluded("fn-over-removed")
+					return inner
+				}
+			}
+		}
+	}
 	switch f {
 	case "clamp":
 		return ex{"clamp(" + inner.s + ", 0, 2)", true}
@@ -396,6 +430,9 @@ func (x *gen) matching(l, r ex, allowGroup bool) string {
 	if m == "on" && g.ExcludeOnBothLack {
 		ls = x.dropBothLack(ls, l, r)
 	}
+	if m == "ignoring" && g.ExcludeIgnoringGuaranteed {
+		ls = x.dropGuaranteed(ls, l, r)
+	}
 	out := m + "(" + strings.Join(ls, ", ") + ") "
 	if !allowGroup {
 		return out
@@ -438,7 +475,29 @@ func (x *gen) dropBothLack(ls []string, l, r ex) []string {
 	var out []string
 	for _, name := range ls {
 		if !MayCarry(ln, name) && !MayCarry(rn, name) {
-			x.g.Excluded++
+			x.excluded("on-both-lack")
+			continue
+		}
+		out = append(out, name)
+	}
+	return out
+}
+
+func (x *gen) dropGuaranteed(ls []string, l, r ex) []string {
+	named := map[string]bool{}
+	for _, e := range []ex{l, r} {
+		n, err := Parse(e.s)
+		if err != nil {
+			return ls
+		}
+		for _, name := range PositivelyNamed(n) {
+			named[name] = true
+		}
+	}
+	var out []string
+	for _, name := range ls {
+		if named[name] {
+			x.excluded("ignoring-guaranteed")
 			continue
 		}
 		out = append(out, name)
